@@ -503,6 +503,94 @@ def native_mul_replay(repo, seed, scratch, results):
             r["replay"] = dict(reproduced=False, note="native replay could not run: %r" % e)
 
 
+def guard_obligation(mir, fn_name, callee, hi_arg=0, div_arg=2):
+    """every call `callee(hi, .., divisor)` inside fn_name must sit in a block whose only way in is the true arm of a branch on a
+    comparison that implies hi < divisor (the #DE precondition of the hardware divide); operands are resolved by copy propagation
+    inside the two blocks involved. Returns (status, detail, seconds)."""
+    ptypes, locs, blocks = parse_fn(mir, fn_name)
+    t0 = time.time()
+    calls = [(bb, ln) for bb, lines in blocks.items() for ln in lines if re.search(r"= (?:[\w:]+::)?%s\(" % re.escape(callee), ln)]
+    if not calls:
+        raise Undecided("no call to %s in %s" % (callee, fn_name))
+
+    def resolve(opnd, lines):
+        opnd = opnd.strip()
+        for _ in range(6):
+            m = re.fullmatch(r"(?:copy|move) (_\d+)", opnd)
+            if not m:
+                return opnd
+            src = None
+            for ln in lines:
+                mm = re.fullmatch(r"%s = ((?:copy|move) _\d+|const .*);" % re.escape(m.group(1)), ln)
+                if mm:
+                    src = mm.group(1)
+            if src is None:
+                return m.group(1)
+            opnd = src
+        return opnd
+
+    for bb, ln in calls:
+        args = Exec.split_args(ln[ln.index("(") + 1:ln.rindex(") ->")])
+        hi = resolve(args[hi_arg], blocks[bb])
+        dv = resolve(args[div_arg], blocks[bb])
+        preds = [(p, l) for p, lines in blocks.items() for l in lines if re.search(r"(-> |: )%s\b" % bb, l) and p != bb]
+        if len(preds) != 1:
+            return "UNDECIDED", "block %s has %d predecessors" % (bb, len(preds)), time.time() - t0
+        pbb, pl = preds[0]
+        m = re.fullmatch(r"switchInt\(move (_\d+)\) -> \[0: (bb\d+), otherwise: (bb\d+)\];", pl)
+        if not m or m.group(3) != bb:
+            return "CANDIDATE", "call to %s in %s is not on the true arm of a two-way branch (%s)" % (callee, fn_name, pl[:60]), time.time() - t0
+        cond = None
+        for l in blocks[pbb]:
+            mm = re.fullmatch(r"%s = (Lt|Le|Gt|Ge|Ne|Eq)\((.*)\);" % re.escape(m.group(1)), l)
+            if mm:
+                cond = mm
+        if not cond:
+            return "UNDECIDED", "branch condition of %s not a comparison" % pbb, time.time() - t0
+        x, y = [resolve(a, blocks[pbb]) for a in Exec.split_args(cond.group(2))]
+        names = {}
+
+        def term(o):
+            if o.startswith("const "):
+                return Exec(Ctx(64), [], {}, {}, {}, {}).const(o[6:])
+            return names.setdefault(o, z3.BitVec("v" + o, 64))
+        tx, ty, thi, tdv = term(x), term(y), term(hi), term(dv)
+        rel = {"Lt": z3.ULT(tx, ty), "Le": z3.ULE(tx, ty), "Gt": z3.UGT(tx, ty), "Ge": z3.UGE(tx, ty), "Ne": tx != ty, "Eq": tx == ty}[cond.group(1)]
+        r, mdl, dt = prove(z3.Implies(rel, z3.ULT(thi, tdv)), [], 30)
+        if r != "HOLDS":
+            return ("CANDIDATE" if r == "CEX" else "UNDECIDED"), "guard `%s(%s, %s)` does not imply hi < divisor for the call %s(%s, .., %s): %s" % (
+                cond.group(1), x, y, callee, hi, dv, str(mdl).replace("\n", " ")[:160]), time.time() - t0
+    return "HOLDS", "", time.time() - t0
+
+
+def run_div_guard(repo, tier, seed, scratch):
+    """C03/C15: the hardware divide inside the Knuth-D core is only reached under `a0 < b0`"""
+    try:
+        mir = dump_mir(repo, scratch)
+        st, det, dt = guard_obligation(mir, "div_rem_core", "div_wide")
+    except Undecided as e:
+        st, det, dt = "UNDECIDED", str(e), 0.0
+    except Exception as e:  # noqa
+        st, det, dt = "UNDECIDED", "translator error %r" % e, 0.0
+    res = [dict(name="mir:div_rem_core:div_wide-guard (hi < divisor at the call)", engine="mir2smt", status=st, detail=det, time_s=round(dt, 3), solver_s=round(dt, 3), props_total=1,
+                bound="any operands (syntactic dominating guard + copy propagation, decided by z3)",
+                failed=[] if st != "CANDIDATE" else [dict(description=det, category="mir", function="div_rem_core", location={})])]
+    if st == "CANDIDATE":
+        import nativediff
+        try:
+            vecs = nativediff.div_vectors(seed)
+            bad_all = []
+            for prof in ("release", "dev"):
+                binary = nativediff.build(scratch, repo, prof)
+                bad, _n = nativediff.run_vectors(binary, vecs)
+                bad_all += [dict(b, profile=prof) for b in bad]
+            res[0]["replay"] = dict(reproduced=bool(bad_all), vectors=len(vecs), disagreements=bad_all[:4],
+                                    note="native quotients/remainders of 3-by-2 and 4-by-2 digit corner operands through BigUint / and % vs Python integers (SIGFPE or debug_assert counts)")
+        except Exception as e:  # noqa
+            res[0]["replay"] = dict(reproduced=False, note="native replay could not run: %r" % e)
+    return res
+
+
 def run_mul(repo, tier, seed, scratch):
     res = check_kernels(repo, tier, seed, scratch, ["mac_with_carry", "mul_with_carry"])
     native_mul_replay(repo, seed, scratch, res)
